@@ -98,4 +98,16 @@ SPECS = {
                 'was applied; distinct = event-log digest',
         'assumptions': _EDIT_ASSUME + ['sampled gaps, not enumerated'],
     },
+    'C13': {
+        'engine': 'reconsim', 'mod': 'sim.engines', 'quick': 6000, 'thorough': 100000, 'level': 'exploration',
+        'rule': 'one evaluation = one seeded run: program, 1-3 rounds of mark() + 0-6 pure-AST mutations applied directly to '
+                'root.a (replace by brand-new nodes, insert, delete, swap, duplicate by copy / by identity, move, graft from '
+                'another FST tree unmodified / modified, change primitive values; each kept only if ast.unparse/ast.parse shows '
+                'the mutated AST is valid) + reconcile(); fault P1: a seeded subset of the puts issued by the reconciler raise '
+                'NodeError at entry (never the root-level fallback); oracle: result satisfies C01, dump == edited AST, identity '
+                'when nothing changed, untouched Module-level statements keep their exact text; non-trivial = a reconcile '
+                'with >= 1 mutation completed; distinct = digest of (mutations, fault calls, result source)',
+        'assumptions': _EDIT_ASSUME + ['under fault P1 only validity and structural equality are asserted (formatting may legitimately be lost by the retry-at-parent path)'],
+        'real_vs_stub': 'all pfst code ran real; harness-side wrapper: Reconcile.put_node (class attribute) for fault P1; stubs: none',
+    },
 }
